@@ -479,6 +479,25 @@ static const char * do_op(Ctx & c, const std::string & opstr, std::ostringstream
       if (ipd) {*ipd = IRef(); d.collect();}
       pd->Reset();
    }
+   else if (o == "ne")
+   {
+      // Neutralize(): forget the pointer, taking our count off the object but never releasing it
+      const Loc l = parse_loc(a[1]);
+      ItemRef * ps = res_r(c, l);
+      ItemRef * pd = ps ? res_w(c, l, (*ps)()) : NULL;
+      IRef * ips = ires_r(d, l, base, S);
+      IRef * ipd = ips ? ires_w(d, l, ips->id, base, S, (pd != NULL)) : NULL;
+      if ((!g_sched)&&((pd != NULL) != (ipd != NULL))) orc << k << " ORACLE FAIL IsRefPrivate()/resolution differs from the ideal graph (op#" << opn << ")\n";
+      if (pd == NULL) return "skip";
+      if (ipd)
+      {
+         const IRef before = *ipd;
+         *ipd = IRef();
+         if ((before.id >= 0)&&(before.c)) {g_untagged.insert(before.id); if (d.count(before.id) == 0) d.orphans.insert(before.id);}
+         d.collect();
+      }
+      pd->Neutralize();
+   }
    else if (o == "sw")
    {
       const Loc la = parse_loc(a[1]), lb = parse_loc(a[2]);
@@ -629,6 +648,7 @@ static void mt_op(std::vector<ItemRef> & stk, PoolI * pool, const std::string & 
       if (ps && pd) {if (o == "as") *pd = *ps; else if (o == "al") pd->SetRef((*ps)(), false); else *pd = CastAwayConstFromRef(*ps);}
    }
    else if (o == "rs") {ItemRef * pd = res_w(c, parse_loc(a[1]), NULL); if (pd) pd->Reset();}
+   else if (o == "ne") {/* leaves orphans by contract: not used by the stress programs */}
    else if (o == "sw")
    {
       const Loc la = parse_loc(a[1]), lb = parse_loc(a[2]);
